@@ -9,6 +9,24 @@ Three parts (HOWTO.md):
   * an oracle that shares nothing with the model: exact integer arithmetic on
     the binary64 inputs, a ray cast in a generic (non-horizontal) direction,
     only for points farther than 1e-6 x polygon size from every edge.
+
+The property quantifies over polygons, points and grids - not over what was done
+before with the objects that carry them.  Besides the "build, ask once" cases the
+check therefore takes objects through recorded sequences of operations and judges
+EVERY answer on the way with the same oracle / the same model:
+  * GridLife: Grid objects (constructor, from_dict) whose public geometry
+    attributes are assigned in place, that are copied (clone, clone(dtype),
+    deepcopy, copy, pickle, apply, to_dict/from_dict) and then moved / rescaled on
+    one side only, that get an unrelated sibling of the same shape, are clipped,
+    have other methods called and their data / returned tables edited, and are
+    asked about a polygon that follows the grid (invariance under translating /
+    scaling polygon and grid together: keys C15/invariance/grid-*) or stays;
+    the caller's polygon ndarray is rewritten in place between queries;
+  * ArrayLife: calls of points_inside_polygon on the caller's points / polygon
+    arrays rewritten in place, with the answer vector handed back, while vectors
+    returned by earlier calls are still held (and must still be right).
+Replays of these cases carry the whole sequence ("steps" / "calls") and are
+re-executed by --replay.
 """
 import copy
 import ctypes
